@@ -9,10 +9,12 @@ import (
 	"io/ioutil"
 	"os"
 	"os/exec"
+	"reflect"
 	"runtime/debug"
 	"sort"
 	"strconv"
 	"strings"
+	"sync"
 	"time"
 	"unicode/utf8"
 
@@ -195,7 +197,7 @@ func buildLine(kv string) (line string, impl string, ok bool) {
 			return "", "", false // the driver's oracle tables are keyed by the text
 		}
 		seen[x] = true
-		t := kvstring.TrimSpaces(x)
+		t := trimSpacesG(x)
 		u := "="
 		if len(t) > 0 && (t[0] == '"' || t[0] == '`') {
 			if s, err := strconv.Unquote(t); err != nil {
@@ -212,17 +214,25 @@ func buildLine(kv string) (line string, impl string, ok bool) {
 	// distinct trimmed texts too
 	seenT := map[string]bool{}
 	for _, x := range parts {
-		t := kvstring.TrimSpaces(x)
+		t := trimSpacesG(x)
 		if seenT[t] {
 			return "", "", false
 		}
 		seenT[t] = true
 	}
-	f, err := field.NewFieldsFromKVString(kv)
+	f, err := kvBuild(kv)
 	if err != nil {
 		return line, "err", true
 	}
 	return line, strings.TrimRight("ok "+vh.HxS(string(f)), " "), true
+}
+
+// trimSpacesG: kvstring.TrimSpaces under recover (a panic gives a text no trimming can yield; the builder comparison then differs)
+func trimSpacesG(x string) (t string) {
+	if p := vh.Recover(func() { t = kvstring.TrimSpaces(x) }); p != "" {
+		return "\x00panic:" + p
+	}
+	return t
 }
 
 func sectionFields(rng *vh.Rng) {
@@ -246,19 +256,23 @@ func sectionFields(rng *vh.Rng) {
 		if rng.Chance(1, 6) {
 			kv = fieldPool(rng)
 		}
-		f, err := field.NewFieldsFromKVString(kv)
+		f, err := kvBuild(kv)
 		if err == nil {
 			kvs2 := []string{kv}
 			if rng.Chance(1, 4) {
 				kv2 := fieldPool(rng)
-				if f2, err2 := field.NewFieldsFromKVString(kv2); err2 == nil {
+				if f2, err2 := kvBuild(kv2); err2 == nil {
 					f = f + f2 // Concat
 					kvs2 = append(kvs2, kv2)
 				}
 			}
 			cases = append(cases, fieldsCase{vh.HxS(string(f)), vh.HxS(rng.PickS(names)), true, kvs2})
 			// names that occur in the list itself: every key, every value, in particular the LAST value
-			if _, cerr := field.Check(string(f)); cerr == nil {
+			var cerr error
+			if p := vh.Recover(func() { _, cerr = field.Check(string(f)) }); p != "" {
+				cerr = fmt.Errorf("panic: %s", p) // runFields meets and reports it (Check is one of its three guarded calls)
+			}
+			if cerr == nil {
 				if its := listItems(string(f)); len(its) > 0 {
 					cases = append(cases, fieldsCase{vh.HxS(string(f)), vh.HxS(its[len(its)-1]), true, kvs2})
 					cases = append(cases, fieldsCase{vh.HxS(string(f)), vh.HxS(its[rng.Intn(len(its))]), true, kvs2})
@@ -286,6 +300,7 @@ func sectionFields(rng *vh.Rng) {
 		}
 	}
 	runFields(sec, cases, false)
+	flushKvPanics(sec)
 	ba := batch(bl)
 	for i := range ba {
 		res.Eval(sec, "build"+bl[i])
@@ -527,15 +542,31 @@ type robustCase struct {
 	S    string `json:"s"`    // hex
 }
 
-var sampleEvents = []*model.LogEvent{
-	{Timestamp: 0, Msg: []byte(""), Fields: ""},
-	{Timestamp: 1568000000000000000, Msg: []byte("hello world"), Fields: field.Parse("a=b,c=d")},
-	{Timestamp: -1, Msg: []byte("\xff\x00\xef\xbf\xbd"), Fields: field.Parse(`k="x,y"`)},
-	{Timestamp: 1<<63 - 1, Msg: []byte(strings.Repeat("m", 300)), Fields: field.Parse("f=" + strings.Repeat("v", 255))},
-	// values that are spelled like field names used in filters and formats, in the last and in an inner position
-	{Timestamp: 5, Msg: []byte("lvl"), Fields: field.Parse("kind=level")},
-	{Timestamp: 6, Msg: []byte("lvl2"), Fields: field.Parse("kind=level,x=y")},
-	{Timestamp: 7, Msg: []byte("lvl3"), Fields: field.Parse("f=f,a=zz")},
+// sampleEvents: built on first use, through the guarded builder (a parser that panics on these plain texts must be reported as such,
+// not end the harness or its child processes in package initialisation)
+var (
+	sampleOnce sync.Once
+	sampleEvs  []*model.LogEvent
+)
+
+func sampleEvents() []*model.LogEvent {
+	sampleOnce.Do(func() {
+		parse := func(kv string) field.Fields { f, _ := kvBuild(kv); return f }
+		sampleEvs = []*model.LogEvent{
+			{Timestamp: 0, Msg: []byte(""), Fields: ""},
+			{Timestamp: 1568000000000000000, Msg: []byte("hello world"), Fields: parse("a=b,c=d")},
+			{Timestamp: -1, Msg: []byte("\xff\x00\xef\xbf\xbd"), Fields: parse(`k="x,y"`)},
+			{Timestamp: 1<<63 - 1, Msg: []byte(strings.Repeat("m", 300)), Fields: parse("f=" + strings.Repeat("v", 255))},
+			// values that are spelled like field names used in filters and formats, in the last and in an inner position
+			{Timestamp: 5, Msg: []byte("lvl"), Fields: parse("kind=level")},
+			{Timestamp: 6, Msg: []byte("lvl2"), Fields: parse("kind=level,x=y")},
+			{Timestamp: 7, Msg: []byte("lvl3"), Fields: parse("f=f,a=zz")},
+			// a Windows directory: back-slashes outside quotes, the last byte is one
+			{Timestamp: 8, Msg: []byte("dir"), Fields: parse("dir=C:\\logs\\,user=root")},
+			{Timestamp: 9, Msg: []byte("usr"), Fields: parse("kind=user")},
+		}
+	})
+	return sampleEvs
 }
 
 func implRobust(c robustCase) callRes {
@@ -546,24 +577,27 @@ func implRobust(c robustCase) callRes {
 			l, err := lql.ParseLql(s)
 			if err == nil {
 				_ = l.String()
+				return astShape(reflect.ValueOf(l), 0), nil
 			}
 			return "", err
 		case "expr":
 			e, err := lql.ParseExpr(s)
 			if err == nil {
 				_ = e.String()
+				return astShape(reflect.ValueOf(e), 0), nil
 			}
 			return "", err
 		case "source":
 			e, err := lql.ParseSource(s)
 			if err == nil {
 				_ = e.String()
+				return astShape(reflect.ValueOf(e), 0), nil
 			}
 			return "", err
 		case "where":
 			f, err := lql.BuildWhereExpFunc(s)
 			if err == nil {
-				for _, le := range sampleEvents {
+				for _, le := range sampleEvents() {
 					f(le)
 				}
 			}
@@ -598,10 +632,12 @@ func implRobust(c robustCase) callRes {
 				return "", err
 			}
 			return "", err2
+		case "reldt":
+			return "", lql.VerifC13ParseRelative(s)
 		case "format":
 			fp, err := model.NewFormatParser(s)
 			if err == nil {
-				for _, le := range sampleEvents {
+				for _, le := range sampleEvents() {
 					_ = fp.FormatStr(le, "a=b,c=d")
 					_ = fp.FormatStr(le, "{broken")
 				}
@@ -634,6 +670,9 @@ func runRobust(sec *vh.Section, cases []robustCase, verbose bool) {
 		if c.Kind == "format" && asciiOnlyLower(s) {
 			ml, mi = append(ml, "fmt.parse "+c.S), append(mi, i)
 		}
+		if c.Kind == "reldt" {
+			ml, mi = append(ml, "reldt "+c.S), append(mi, i)
+		}
 		if c.Kind == "lql" && strings.HasPrefix(s, holePrefix+"(") {
 			ml, mi = append(ml, fmt.Sprintf("nest %d %s", 1<<30, c.S)), append(mi, i)
 		}
@@ -644,8 +683,19 @@ func runRobust(sec *vh.Section, cases []robustCase, verbose bool) {
 	for k, a := range batch(ml) {
 		i := mi[k]
 		res.Dist(sec, cases[i].Kind+"/model-compared")
-		if modelKind(a) != impl[i].Kind {
-			res.Mismatch(vh.Mismatch{Section: "robust", Function: map[string]string{"format": "model.NewFormatParser", "expr": "lql.ParseExpr (nesting guard / depth)", "lql": "lql.ParseLql (nesting guard on a text with a tags token)"}[cases[i].Kind],
+		want := modelKind(a)
+		if cases[i].Kind == "reldt" && want == "ok" {
+			// the model stops at the text handed to strconv.ParseFloat (a total library function): an error of that call is the answer
+			body := ""
+			if f := strings.Fields(a); len(f) > 1 {
+				body = string(vh.UnHx(f[1]))
+			}
+			if _, err := strconv.ParseFloat(body, 64); err != nil {
+				want = "err"
+			}
+		}
+		if want != impl[i].Kind {
+			res.Mismatch(vh.Mismatch{Section: "robust", Function: map[string]string{"format": "model.NewFormatParser", "reldt": "lql.parseRalativeDateTime", "expr": "lql.ParseExpr (nesting guard / depth)", "lql": "lql.ParseLql (nesting guard on a text with a tags token)"}[cases[i].Kind],
 				Input: cases[i], Impl: impl[i].Kind, Model: a})
 		}
 	}
@@ -662,6 +712,13 @@ func runRobust(sec *vh.Section, cases []robustCase, verbose bool) {
 		if verbose {
 			fmt.Printf("robust %s %s -> %s %s\n", c.Kind, c.S, impl[i].Kind, impl[i].Val)
 		}
+		if impl[i].Kind == "ok" && impl[i].Val != "" && (c.Kind == "lql" || c.Kind == "expr" || c.Kind == "source") {
+			res.Mismatch(vh.Mismatch{Section: "robust", Function: "participle AST shape (the contracts behind the census classes slice-element / grammar:mandatory / grammar:alternative of Generated/C13Sites.lean)",
+				Input: c, Impl: impl[i].Val, Model: "no nil element in a node slice; every mandatory capture set; exactly one branch of a two-branch alternation set"})
+		}
+		if impl[i].Kind == "ok" && (c.Kind == "lql" || c.Kind == "expr" || c.Kind == "source") {
+			res.Dist(sec, c.Kind+"/ast-shape-checked")
+		}
 		if impl[i].Kind == "panic" || impl[i].Kind == "timeout" {
 			res.SpecFail(vh.SpecFailure{Section: "robust", Kind: map[string]string{"panic": "panic", "timeout": "hang"}[impl[i].Kind], Input: c, Impl: impl[i].Kind + " " + impl[i].Val,
 				Spec: "a result or an error", What: "parser/evaluator '" + c.Kind + "' does not answer with a result or an error on this text (robustness test; not modelled)"})
@@ -673,7 +730,7 @@ var whereMode bool // generation is single-threaded: identifiers valid in a WHER
 
 func genIdent(rng *vh.Rng) string {
 	if whereMode {
-		return rng.PickS([]string{"msg", "ts", "fields:f", "lower(msg)", "upper(fields:a)", "fields:\"a b\"", "msg", "fields:zz", "fields:level", "fields:kind", "fields:x", "fields:y", "fields:b", "fields:d"})
+		return rng.PickS([]string{"msg", "ts", "fields:f", "lower(msg)", "upper(fields:a)", "fields:\"a b\"", "msg", "fields:zz", "fields:level", "fields:kind", "fields:x", "fields:y", "fields:b", "fields:d", "fields:user", "fields:root", "fields:dir", "fields", "fields:", "FIELDS:x", "Fields:level", "fieldsx", "field", "fields:f:g"})
 	}
 	return rng.PickS([]string{"a", "name", "msg", "ts", "fields:f", "lower(msg)", "upper(name)", "x1", "_", "fields:\"a b\""})
 }
@@ -841,8 +898,8 @@ func runNesting(sec *vh.Section, c nestCase, verbose bool) {
 	}
 	if big != "answered" {
 		res.SpecFail(vh.SpecFailure{Section: "nesting", Kind: "fatal-stack-overflow", Input: c, Impl: big + ": " + msg, Spec: "refused with an error",
-			Model: strings.Join(ans, " | "), ImplEqModel: modelKind(ans[1]) == "panic", Finding: "F25",
-			What: "lql.ParseLql recursion depth is unbounded"})
+			Model: strings.Join(ans, " | "), ImplEqModel: modelKind(ans[1]) == "panic", Finding: map[bool]string{true: "F25"}[big == "fatal-stack-overflow"],
+			What: "lql.ParseLql recursion depth is unbounded (or the parser ended the process in another way: see impl)"})
 		return
 	}
 	if !strings.Contains(msg, "true") {
@@ -982,7 +1039,7 @@ func sectionRobust(rng *vh.Rng) {
 			}
 			add("kv", f)
 		case 4:
-			f := rng.PickS([]string{"{msg}", "{msg.json()}", "{ts}", "{ts.format(15:04:05.000)}", "{vars}", "{vars:a}", "{VARS:İ}", "a{{b", "{}", "{ msg }", "{ts.format()}", "{vars:}", "{ts.format(2006", "é{msg}\xff", "{\xff}", "{ts.format(\xff)}", "{msg", "}{", "{vars:f}{vars:zz}", "{vars:level}", "{vars:kind}|{vars:y}", "{vars:d}{vars:b}"})
+			f := rng.PickS([]string{"{msg}", "{msg.json()}", "{ts}", "{ts.format(15:04:05.000)}", "{vars}", "{vars:a}", "{VARS:İ}", "a{{b", "{}", "{ msg }", "{ts.format()}", "{vars:}", "{ts.format(2006", "é{msg}\xff", "{\xff}", "{ts.format(\xff)}", "{msg", "}{", "{vars:f}{vars:zz}", "{vars:level}", "{vars:kind}|{vars:y}", "{vars:d}{vars:b}", "{vars:user}{vars:dir}", "{vars:root}"})
 			if rng.Bool() {
 				f = mutateText(rng, f+rng.PickS([]string{"", "{msg}", " x "}))
 			}
@@ -1006,7 +1063,54 @@ func sectionRobust(rng *vh.Rng) {
 		add("tagsexp", strings.Repeat("(", d)+"a=1"+strings.Repeat(")", d))
 		add("lql", "select from "+strings.Repeat("{", d))
 	}
+	// relative date-times (`-<number>(m|h|d)`): every text of up to 3 bytes over the bytes the function looks at, longer ones at random;
+	// compared with the model of its indexing (Model/LqlSites.lean), and as time points of real statements
+	{
+		al := []byte{'-', 'm', 'h', 'd', '1', '.', ' ', 'M'}
+		var rec func(p []byte, left int)
+		rec = func(p []byte, left int) {
+			add("reldt", string(p))
+			if left > 0 {
+				for _, c := range al {
+					rec(append(append([]byte{}, p...), c), left-1)
+				}
+			}
+		}
+		rec(nil, 3)
+		for k := 0; k < 200; k++ {
+			b := make([]byte, rng.Range(1, 9))
+			for j := range b {
+				b[j] = al[rng.Intn(len(al))]
+			}
+			if rng.Bool() {
+				b[0] = '-'
+			}
+			add("reldt", string(b))
+			if k < 12 {
+				add("reldt", []string{"-1.5h", "-24m", "-3d", "-0m", "-1e3h", "-infh", "-nanm", "-1.5H", "--1h", "-1h ", "-h", "-.5d"}[k])
+			}
+			if k < 60 {
+				add("lql", "select range [\""+string(b)+"\":]")
+				add("where", "ts < \""+string(b)+"\"")
+				add("lql", "truncate dryrun before \""+string(b)+"\"")
+			}
+		}
+	}
+	// back-slashes outside quotes in tag lines / field texts / sources (a Windows directory), in every position incl. the last byte
+	for _, t := range []string{"dir=C:\\logs\\", "{app=a,dir=C:\\logs\\}", "a=b\\", "a=\\", "\\", "a\\", "a\\=b", "a=b\\,c=d", "{a=b\\}", "{a=b}\\", "a=\"b\"\\", "a=\"b\\", "a=`b`\\", "a=b,\\", "a=b\\\\"} {
+		add("tags", t)
+		add("kv", t)
+		add("source", t)
+		add("tagsexp", t)
+		add("lql", "select from "+t+" limit 1")
+		add("lql", "SELECT FROM {"+strings.Trim(t, "{}")+"} LIMIT 1")
+		add("lql", "show partitions "+t)
+		add("lql", "describe partition "+t)
+		add("lql", "create pipe p from "+t)
+		add("lql", "truncate dryrun "+t)
+	}
 	runRobust(sec, cases, false)
+	flushKvPanics(sec)
 	res.Done(sec)
 }
 
